@@ -39,7 +39,8 @@ RULE = (
     "clear_divisions) x a pipeline of 1-3 operations from a typed grammar: projection, boolean filter (column predicates, "
     "predicates against a reduction such as df[df.a > df.a.max()]), assign (new and shadowing, scalar and expression), "
     "column arithmetic/comparison/logic, frame (op) scalar / frame.add(series, axis=0) / frame (op) frame, a series or "
-    "frame coming from ANOTHER partitioning of the same index, astype, fillna, where/mask, isin, clip, Series.map/apply and "
+    "frame coming from ANOTHER partitioning of the same index, astype, fillna (scalar, dict, reduction of the frame), where/mask, "
+    "isin (list, dict per column), filter predicates on shift/diff/ffill/bfill of a column, clip, Series.map/apply and "
     "DataFrame.map/apply(axis=1) with meta, rename, abs/neg/round, .str (upper/lower/len/contains/startswith/slice/cat/"
     "getitem/replace/zfill), .dt (year/dayofweek/hour/floor/ceil/normalize), .cat (codes/as_known/as_ordered/"
     "add_categories/rename_categories). Oracle: the same program on the pandas frame. Non-trivial: >= 3 partitions one of "
@@ -55,6 +56,9 @@ ASSUMPTIONS = [
 TECHNIQUE = "differential testing against pandas with Hypothesis-generated frames, partitionings and typed operation pipelines"
 
 
+D_SEQ = ("shift", "diff", "ffill", "bfill")
+
+
 def flags(ops, case):
     """Structural input classes (booleans) used to key known findings: an operation whose
     expression is rewritten when a later step selects columns ("..._then"), and friends."""
@@ -67,7 +71,17 @@ def flags(ops, case):
         frame_cmpmethod_then=any(o["op"] == "frame_bin" and o.get("method") and o["fn"] in D.CMP for o in head),
         frame_frame_then=any(o["op"] == "frame_frame" for o in head),
         fmap_then=any(o["op"] == "fmap" for o in head),
-        fillna_dict_then=any(o["op"] == "fillna" and isinstance(o["value"], dict) for o in head),
+        fillna_dict_then=any(o["op"] == "fillna" and isinstance(o["value"], dict) and "red" not in o["value"] for o in head),
+        # df.fillna(df.max()) / df.isin({col: values}) followed by a later step (e.g. a column selection)
+        fillna_red_then=any(o["op"] == "fillna" and isinstance(o["value"], dict) and "red" in o["value"] for o in head),
+        isin_dict_then=any(o["op"] == "isin" and isinstance(o["values"], dict) for o in head),
+        # a filter applied to the result of a frame-level astype (the predicate sees the CONVERTED columns)
+        astype_then_filter=any(o["op"] == "filter" and any(q["op"] == "astype" for q in ops[:i]) for i, o in enumerate(ops)),
+        # a filter whose predicate looks at neighbouring rows (shift/diff/ffill/bfill), applied to an already filtered frame
+        seq_pred_after_filter=any(
+            o["op"] == "filter" and any(n.get("e") == "meth" and n.get("m") in D_SEQ for n in D.walk(o["pred"])) and any(q["op"] == "filter" for q in ops[:i])
+            for i, o in enumerate(ops)
+        ),
         assign_twice=len(set(assigned)) < len(assigned),
         assign_other_then=any(o["op"] == "assign" and D.uses(o, "other") for o in head),
         # a series of another collection / of the unfiltered frame assigned into a frame that may have an
@@ -77,6 +91,16 @@ def flags(ops, case):
             o["op"] == "frame_bin" and o.get("method") and o["fn"] in D.CMP and (D.uses(o["other"], "other") or D.uses(o["other"], "root"))
             for o in ops
         ),
+    )
+
+
+def align_flags(case, envd):
+    """How the operands of an alignment are partitioned: every one in a single partition / some with known and some
+    with unknown divisions."""
+    known = [bool(case.known_div)] + [k for _, k in envd.others]
+    return dict(
+        align_single_partitions=bool(envd.others) and case.nparts == 1 and all(n == 1 for n, _ in envd.others),
+        align_known_unknown_mix=bool(envd.others) and len(set(known)) > 1,
     )
 
 
@@ -123,16 +147,27 @@ def check(spec):
                 got = F.compute(res)
         except Violation as v:
             v.sig["unknown_div_same_nparts"] = same_nparts(case, envd)
+            v.sig.update(align_flags(case, envd))
             cause = v.__cause__
             if isinstance(cause, NotImplementedError):
                 count("dask-notimplemented")
                 raise Reject("dask refuses: NotImplementedError") from None
+            if isinstance(cause, ValueError) and "All NaN partition encountered" in str(cause):
+                # ffill/bfill look one partition back; dask documents (in the message) that it refuses when a whole
+                # partition is missing - a limitation of ffill/bfill (C46), not of filtering
+                count("dask-refuses-all-nan-partition")
+                raise Reject("dask refuses: ffill/bfill over an all-NaN (or empty) partition") from None
             if loose:
+                if isinstance(cause, AssertionError) or (isinstance(cause, TypeError) and "not supported between instances" in str(cause)):
+                    # an internal invariant failing (assert) or None divisions being compared is a crash inside the
+                    # alignment code, not the refusal dask documents for unknown divisions
+                    raise
                 # documented: without divisions dask may refuse to align
                 count("unknown-div-align-raised")
                 return
             raise
     sig["unknown_div_same_nparts"] = same_nparts(case, envd)
+    sig.update(align_flags(case, envd))
     maybe_empty = case.has_empty or len(case.pdf) == 0 or any(o["op"] == "filter" for o in ops)
     D.compare(got, want, res._meta, what=f"{sig['ops']}", check_order=not loose, sig=sig, maybe_empty=maybe_empty, cat_free="cat.as_known" in feats)
 
@@ -159,8 +194,77 @@ def random_case(draw):
     # accessor part of the grammar is exercised in most cases; the remaining columns are free
     req = [draw(F.column_spec("a", D.NUM_KINDS)), draw(F.column_spec("b", ["str", "str", "obj", "datetime", "cat"]))]
     fs = draw(F.frame_spec(max_rows=30, required=req, min_cols=0, max_cols=3))
-    ops = D.gen_pipeline(draw, fs, max_ops=3)
+    ops = D.gen_pipeline(draw, fs, max_ops=3, ext=True)
     return {"frame": fs, "clear_div": draw(st.integers(0, 5)) == 0, "ops": ops}
+
+
+def _c(n):
+    return {"e": "col", "name": n}
+
+
+def _cmp(op, l, v):
+    return {"e": "bin", "op": op, "l": l, "r": {"e": "lit", "v": v}}
+
+
+def grid_cases(tier):
+    """Exhaustive small grid over two fixed frames (float column with missing values; unique / duplicate index):
+    partitionings (1-3 partitions, known / cleared divisions) x hand-written programs of the classes
+    (a) fillna(reduction) / isin(dict) / fillna(dict) followed by every kind of column selection,
+    (b) a chain of two filters whose second predicate is row-wise, a reduction, or neighbour-dependent,
+    (d) astype followed by a filter on a converted column,
+    (c) every binary form between the frame and a series/frame of ANOTHER partitioning with 1-3 partitions and
+        known / unknown divisions (so that known x unknown and 1 x 1 partitions are all met)."""
+    # a: integers 0..5 (so that the isin value lists hit), b/c: floats with missing values
+    cols = [{"kind": "key", "name": "a", "card": 6}, {"kind": "float", "name": "b", "nan": 0.2}, {"kind": "float", "name": "c", "nan": 0.5}]
+    frames = [
+        {"columns": cols, "index": {"kind": "range", "name": None}, "nrows": 12, "seed": 3},
+        {"columns": cols, "index": {"kind": "sorted_dups", "name": None}, "nrows": 9, "seed": 4},
+    ]
+    selections = [[{"op": "getcol", "col": "b"}], [{"op": "getcol", "col": "a"}], [{"op": "project", "cols": ["b"]}], [{"op": "project", "cols": ["b", "a"]}], []]
+    firsts = [
+        {"op": "fillna", "cols": ["a", "b", "c"], "value": {"red": "max"}},
+        {"op": "fillna", "cols": ["b", "c"], "value": {"red": "min"}},
+        {"op": "isin", "cols": ["a", "b", "c"], "values": {"dict": [["a", [1, 2, -1, 0]]]}},
+        {"op": "isin", "cols": ["a", "b", "c"], "values": {"dict": [["a", [1, 2]], ["b", [0.5, 1.0]]]}},
+        {"op": "isin", "cols": ["a", "b"], "values": {"dict": [["b", [0.5]], ["a", [0, 1, 2, 3]], ["nope", [1]]]}},
+        {"op": "isin", "cols": ["a", "b", "c"], "values": [0, 1, 2]},
+        {"op": "fillna", "value": {"dict": [["b", -1.5], ["c", 0.5]]}},
+    ]
+    progs = [[f] + sel for f in firsts for sel in selections]
+    first_filter = {"op": "filter", "pred": _cmp("ge", _c("a"), 2)}  # drops the rows with a in {0, 1}
+    seconds = [_cmp("gt", {"e": "meth", "x": _c(c), "m": m, "args": args}, v)
+               for c in ("a", "b") for m, args in (("shift", [1]), ("shift", [-1]), ("diff", [1]), ("ffill", []), ("bfill", [])) for v in (0, 5)]
+    seconds += [_cmp("lt", _c("b"), 5), {"e": "bin", "op": "ge", "l": _c("a"), "r": {"e": "red", "x": _c("a"), "r": "max"}}]
+    progs += [[first_filter, {"op": "filter", "pred": p}] for p in seconds]
+    progs += [[{"op": "filter", "pred": p}] for p in seconds[:4]]
+    # (d) a filter on converted columns: after float -> Float64 a missing value compares as <NA> (row dropped), before as NaN
+    to_nullable = {"op": "astype", "dtypes": {"dict": [["b", "Float64"]]}}
+    progs += [[to_nullable, {"op": "filter", "pred": _cmp("ne", _c("b"), 0)}], [to_nullable, {"op": "filter", "pred": {"e": "inv", "x": _cmp("gt", _c("b"), 0)}}],
+              [{"op": "astype", "dtypes": {"dict": [["a", "float64"]]}}, {"op": "filter", "pred": _cmp("gt", _c("a"), 2)}]]
+    for fs in frames:
+        unique = fs["index"]["kind"] == "range"
+        for n in (1, 2, 3):
+            for clear in (False, True):
+                frame = dict(fs, partition={"how": "npartitions", "n": n, "sort": True})
+                for ops in progs:
+                    yield {"frame": frame, "clear_div": clear, "ops": ops}
+                if not unique:
+                    continue  # alignment across partitionings needs unique labels when divisions are unknown
+                for n2 in (1, 2, 3):
+                    for unknown in (False, True):
+                        ser = {"e": "other", "col": "b", "n": n2, "unknown": unknown}
+                        fr = {"e": "other", "cols": ["a", "b"], "n": n2, "unknown": unknown}
+                        aligned = [
+                            [{"op": "expr", "value": {"e": "bin", "op": "add", "l": _c("a"), "r": ser}}],
+                            [{"op": "expr", "value": {"e": "bin", "op": "mul", "l": ser, "r": _c("c")}}],
+                            [{"op": "frame_frame", "cols": ["a", "b"], "fn": "add", "other": fr}],
+                            [{"op": "frame_bin", "cols": ["a", "c"], "fn": "sub", "other": ser, "method": True, "axis": 0}],
+                            [{"op": "assign", "name": "z", "value": ser}],
+                            [{"op": "expr", "value": {"e": "where", "x": _c("a"), "cond": _cmp("gt", ser, 0), "other": {"e": "lit", "v": 0}}}],
+                            [{"op": "expr", "value": {"e": "meth", "x": _c("c"), "m": "fillna", "args": [ser]}}],
+                        ]
+                        for ops in aligned:
+                            yield {"frame": frame, "clear_div": clear, "ops": ops}
 
 
 SUBCHECKS = [
@@ -172,5 +276,17 @@ SUBCHECKS = [
         nontrivial=nontrivial,
         classes=classes,
         doc="random frames x partitionings (incl. empty partitions, unknown divisions) x 1-3 step elementwise pipelines",
+    ),
+    Sub(
+        "grid",
+        check,
+        kind="enum",
+        cases=grid_cases,
+        nontrivial=nontrivial,
+        classes=classes,
+        exhaustive=True,
+        doc="two fixed frames x 1-3 partitions x known/cleared divisions x hand-written programs: fillna(reduction)/isin(dict) then a "
+        "column selection; chained filters with row-wise / reduction / neighbour-dependent second predicates; every binary form "
+        "against a series/frame of another partitioning (1-3 partitions, known/unknown divisions)",
     ),
 ]
